@@ -329,4 +329,84 @@ theorem banner_phase {scfg : Srv.Config} {now : Nat} {v0 : Srv.State} {rs0 : Lis
     case g2' => exact ⟨by rw [hv0]; exact linked_init, hl⟩
     case g3' => rfl
 
+/-! ### from two new sessions to a publishing pair -/
+
+/-- what the server configuration must satisfy for its values to be the Rust types' values -/
+structure SCfgWF (scfg : Srv.Config) : Prop where
+  win : scfg.windowAckSize < 4294967296
+  bw : scfg.peerBandwidth < 4294967296
+  fms : Utf8.valid scfg.fmsVersion = true
+
+/-- the state `C02_publish_media` starts from -/
+structure PublishReady (c : Cli.State) (v : Srv.State) (sid : Nat) (app key : Bytes) (mode : Srv.PublishMode) : Prop where
+  inStep : InStep c v
+  cst : c.st = .publishing
+  cact : c.activeStream = some sid
+  sid32 : sid < 4294967296
+  vconn : v.connected = true
+  vapp : v.app = some app
+  vstream : mapGet sid v.streams = some (.publishing key mode)
+
+/-- **C02, publish workflow.**  A new client session (any configuration whose chunk size the library
+    accepts) and a new server session (any configuration `ServerSession::new` accepts).  The application
+    code on each side does what the API asks: forwards returned packets to the peer, accepts the
+    requests it is shown, and calls `request_connection` then `request_publishing`.  Whatever those
+    four application calls return when they return Ok, every `handle_input` in between succeeds and
+    returns exactly the results listed — the server is shown exactly one connection request (for the
+    application name minus one trailing '/') and exactly one publish request (that application, the
+    requested key and mode), the client exactly "connection accepted" then "publish accepted" — and the
+    pair ends `PublishReady` on stream 1. -/
+theorem publish_workflow (ccfg : Cli.Config) (scfg : Srv.Config) (now : Nat) (app key : Bytes) (t : Cli.PublishType)
+    (hcw : CfgWF ccfg) (hco : CfgOK ccfg) (hsw : SCfgWF scfg)
+    (happ : Utf8.valid app = true) (hkey : Utf8.valid key = true) (hkl : key.length ≤ 65535)
+    {v0 : Srv.State} {rs0 : List Srv.Res} (hnew : Srv.new scfg now = .ok (v0, rs0)) :
+    ∃ c1 b4, CliPart.drain ({ cfg := ccfg } : Cli.State) now (bytesS rs0) = (c1, .ok (bannerEvents scfg now b4)) ∧
+    ∀ c2 r1, Cli.requestConnection c1 now app = (c2, .ok r1) →
+    ∃ p1 v1, r1 = .out p1 ∧
+      SrvPart.drain v0 now p1.bytes = (v1, .ok [.ev (.connectionRequested 0 (trimApp app))]) ∧
+    ∀ v2 rs2, Srv.acceptRequest v1 now 0 = (v2, .ok rs2) →
+    ∃ p2 c3 pa pb v3, rs2 = [.out p2] ∧
+      CliPart.drain c2 now p2.bytes = (c3, .ok [.out pa, .ev .connectionAccepted, .out pb]) ∧
+      SrvPart.drain v2 now (pa.bytes ++ pb.bytes) = (v3, .ok []) ∧
+    ∀ c4 r3, Cli.requestStream c3 now (.publish key t) = (c4, .ok r3) →
+    ∃ p3 v4 p4 c5 p5 v5, r3 = .out p3 ∧
+      SrvPart.drain v3 now p3.bytes = (v4, .ok [.out p4]) ∧
+      CliPart.drain c4 now p4.bytes = (c5, .ok [.out p5]) ∧
+      SrvPart.drain v4 now p5.bytes = (v5, .ok [.ev (.publishRequested 1 (trimApp app) key (modeOf t))]) ∧
+    ∀ v6 rs6, Srv.acceptRequest v5 now 1 = (v6, .ok rs6) →
+    ∃ p6 p7 c6, rs6 = [.out p6, .out p7] ∧
+      CliPart.drain c5 now (p6.bytes ++ p7.bytes) = (c6, .ok [.ev .publishAccepted]) ∧
+      PublishReady c6 v6 1 (trimApp app) key (modeOf t) := by
+  obtain ⟨c1, b4, hd0, hin1, hc1, hv0⟩ := banner_phase ccfg hnew hsw.win hsw.bw
+  refine ⟨c1, b4, hd0, ?_⟩
+  intro c2 r1 h1
+  have hc1cfg : c1.cfg = ccfg := by rw [hc1]
+  have hc1txn : c1.nextTxn = 1 := by rw [hc1]
+  have hv0fms : v0.fmsVersion = scfg.fmsVersion := by rw [hv0]
+  have hv0req : v0.nextReq = 0 := by rw [hv0]
+  have hv0ns : v0.nextStream = 1 := by rw [hv0]
+  obtain ⟨p1, v1, hr1, hd1, hrest⟩ := connect_phase hin1 (by rw [hc1cfg]; exact hcw) (by rw [hc1cfg]; exact hco) happ
+    (by rw [hc1txn]; decide) (by rw [hv0fms]; exact hsw.fms) h1
+  rw [hv0req] at hd1 hrest
+  refine ⟨p1, v1, hr1, hd1, ?_⟩
+  intro v2 rs2 h2
+  obtain ⟨p2, c3, pa, pb, v3, hrs2, hd2, hd3, hin3, hc3, hv3⟩ := hrest v2 rs2 h2
+  refine ⟨p2, c3, pa, pb, v3, hrs2, hd2, hd3, ?_⟩
+  intro c4 r3 h3
+  have hc3txn : c3.nextTxn = 2 := by rw [hc3, hc1txn]
+  have hv3ns : v3.nextStream = 1 := by rw [hv3, hv0ns]
+  have hv3req : v3.nextReq = 1 := by rw [hv3]
+  have hv3c : v3.connected = true := by rw [hv3]
+  have hv3a : v3.app = some (trimApp app) := by rw [hv3]
+  obtain ⟨p3, v4, p4, c5, p5, v5, hr3, hd4, hd5, hd6, hrest2⟩ := publish_phase (appS := trimApp app) hin3
+    (by rw [hc3txn]; decide) (by rw [hv3ns]; decide) hkey hkl hv3c hv3a h3
+  rw [hv3req] at hd6 hrest2
+  refine ⟨p3, v4, p4, c5, p5, v5, hr3, hd4, hd5, hd6, ?_⟩
+  intro v6 rs6 h6
+  obtain ⟨p6, p7, c6, hrs6, hd7, hin6, hc6, hv6, hstream⟩ := hrest2 v6 rs6 h6
+  rw [hv3ns] at hc6 hstream
+  refine ⟨p6, p7, c6, hrs6, hd7, hin6, by rw [hc6], by rw [hc6], by decide, ?_, ?_, hstream⟩
+  · rw [hv6]; exact hv3c
+  · rw [hv6]; exact hv3a
+
 end Rml.Workflow
